@@ -88,7 +88,11 @@ CHECKS = {
              'newer event and completion of the most recent one (cancel), start at arrival (start), guard_time '
              'separation, output == number of active runs at every change and 0 when idle, stop_data started last. '
              'Thorough enumerates all multisets of <=3 arrivals on a 7-point grid x durations x stop instants.',
-        note='Completion, cancellation causes and stop_data order are asserted only with a generous stop_timeout, as the property conditions them on it.'),
+        note='Completion, cancellation causes and stop_data order are asserted only with a generous stop_timeout, as the '
+             'property conditions them on it. With a tight stop_timeout the clean-up must end within the largest '
+             'stop_timeout of the circuit (guard time exempt); two ways in which it does not are recorded as open '
+             'findings F18/F19 in known_findings.json (the check prints KNOWN-FINDING lines for them and exits 0; any '
+             'other overrun is a violation).'),
     'C03': dict(
         level='exploration', design_ref='DESIGN.md 4/C03',
         technique=PBT + '; own interpreter of docs/FSM.rst run against FSM classes generated with type(); complete ordered log of hooks and events compared; exhaustive transition tables (thorough)',
